@@ -214,7 +214,11 @@ class CommandsCache(cabc.Mapping):
         """
         is_aliases_change = self._update_aliases_cache()
         is_paths_change = self._update_paths_cache(paths)
-        return is_aliases_change or is_paths_change
+        # Reordering $PATH or removing an entry changes precedence and
+        # membership although no directory mtime changed.
+        is_path_order_change = paths != getattr(self, "_last_paths", None)
+        self._last_paths = paths
+        return is_aliases_change or is_paths_change or is_path_order_change
 
     @property
     def all_commands(self):
